@@ -225,6 +225,29 @@ func UnfoldUProc(to *UProc) (interface{}, func(*UProc, interface{}) error) {
 	}
 }
 
+// UTree is a RECURSIVE type unfolded by a processing unfolder: the cell of a
+// UTree holds further UTrees, so several processing states of the same type are
+// active at once while a nested document arrives.
+type UTree struct {
+	Name string
+	Kids []UTree
+}
+
+type utreeCell struct {
+	Name string
+	Kids []UTree
+}
+
+// UnfoldUTree is the processing unfolder of UTree.
+func UnfoldUTree(to *UTree) (interface{}, func(*UTree, interface{}) error) {
+	cell := &utreeCell{}
+	return cell, func(to *UTree, c interface{}) error {
+		tmp := c.(*utreeCell)
+		to.Name, to.Kids = tmp.Name, tmp.Kids
+		return nil
+	}
+}
+
 // UState is unfolded by a *stateful* user unfolder (func(*T) UnfoldState)
 // that drives the shared state stack itself: the start state is replaced by the
 // object state (Cont), the list member pushes a nested state (Push), both leave
@@ -388,7 +411,7 @@ func UnfoldOptions() gotype.UnfoldOption {
 	// in a package variable: whatever the option value holds is shared by all
 	// unfolders created from it
 	unfoldOptsOnce.Do(func() {
-		unfoldOpts = gotype.Unfolders(append([]interface{}{UnfoldUNum, UnfoldUStr, UnfoldUProc, UnfoldUState, UnfoldUNorm}, upUnfolders...)...)
+		unfoldOpts = gotype.Unfolders(append([]interface{}{UnfoldUNum, UnfoldUStr, UnfoldUProc, UnfoldUState, UnfoldUNorm, UnfoldUTree}, upUnfolders...)...)
 	})
 	return unfoldOpts
 }
@@ -404,11 +427,12 @@ var (
 	uProcType  = reflect.TypeOf(UProc{})
 	uStateType = reflect.TypeOf(UState{})
 	uNormType  = reflect.TypeOf(UNorm{})
+	uTreeType  = reflect.TypeOf(UTree{})
 )
 
 // UsesUserUnfolder reports whether a target of type t needs UnfoldOptions.
 func UsesUserUnfolder(t reflect.Type) bool {
-	return usesAny(t, 0, map[reflect.Type]bool{}, append([]reflect.Type{uNumType, uStrType, uProcType, uStateType, uNormType}, upTypes...)...)
+	return usesAny(t, 0, map[reflect.Type]bool{}, append([]reflect.Type{uNumType, uStrType, uProcType, uStateType, uNormType, uTreeType}, upTypes...)...)
 }
 
 func usesAny(t reflect.Type, depth int, seen map[reflect.Type]bool, wanted ...reflect.Type) bool {
@@ -439,6 +463,7 @@ func init() {
 		PoolType{Name: "UNum", Type: uNumType, NeedsUnfoldOpts: true},
 		PoolType{Name: "UStr", Type: uStrType, NeedsUnfoldOpts: true},
 		PoolType{Name: "UProc", Type: uProcType, NeedsUnfoldOpts: true},
+		PoolType{Name: "UTree", Type: uTreeType, NeedsUnfoldOpts: true, Recursive: true},
 		PoolType{Name: "UState", Type: uStateType, NeedsUnfoldOpts: true},
 		PoolType{Name: "UNorm", Type: uNormType, NeedsUnfoldOpts: true, Normalises: true},
 	)
@@ -548,6 +573,23 @@ func init() {
 		default:
 			return errors.New("UStr accepts strings only")
 		}
+		return nil
+	}
+	poolAssign[uTreeType] = func(dst reflect.Value, v model.V) error {
+		if v.K == model.VNull {
+			dst.Set(reflect.Zero(dst.Type()))
+			return nil
+		}
+		if v.K != model.VObj {
+			return errors.New("UTree accepts objects only")
+		}
+		// the temporary cell starts from zero and replaces the target as a whole
+		tmp := reflect.New(reflect.TypeOf(utreeCell{})).Elem()
+		if err := assign(tmp, v, "$", 1); err != nil {
+			return err
+		}
+		dst.Field(0).SetString(tmp.Field(0).String())
+		dst.Field(1).Set(tmp.Field(1))
 		return nil
 	}
 	poolAssign[uProcType] = func(dst reflect.Value, v model.V) error {
